@@ -297,6 +297,8 @@ pub(crate) fn f7(tier: Tier) -> Vec<Query> {
             out.push(sel(vec![ta(), tb()], table("t")).filter(e.clone()).query());
             if tier == Tier::Thorough {
                 out.push(Select::new(vec![item(ta()), item_as(e.clone(), "e")], table("t")).query());
+            }
+            if tier == Tier::Thorough || q == in_subs[0] {
                 out.push(sel(vec![ta(), tb()], table("t")).filter(or(is_null(tb()), e)).query());
             }
         }
@@ -430,7 +432,9 @@ pub(crate) fn f8(tier: Tier) -> Vec<Query> {
             for p in int_preds(&a(), &bb()).iter().take(10) {
                 out.push(sel(vec![e.clone()], table("t")).filter(p.clone()).query());
             }
-            for ag in aggs_over(e).into_iter().take(6) {
+            // (the text-valued simple CASE cannot be summed / averaged)
+            let numeric = !matches!(e, Expr::Case { whens, .. } if matches!(whens[0].1, Expr::Lit(crate::sqlmc::value::Value::Text(_))));
+            for ag in aggs_over(e).into_iter().take(if numeric { 6 } else { 0 }) {
                 out.push(Select::new(vec![item(a()), item_as(ag, "g")], table("t")).group(vec![a()]).query());
             }
         }
